@@ -1150,20 +1150,16 @@ func (te *TemplateEngine) cloneRun(source *Run) Run {
 		newRun.Break = &Break{Type: source.Break.Type}
 	}
 
-	// 复制图像（如果有）
+	// 复制图像、域字符和指令文本（如果有）。这些成员同样深拷贝：共享指针时，
+	// 对渲染结果中图片/域的修改会改到模板的基础文档和其他渲染结果
 	if source.Drawing != nil {
-		// 暂时保持简单复制，图像的深度复制比较复杂
-		newRun.Drawing = source.Drawing
+		newRun.Drawing = deepCopyValue(reflect.ValueOf(source.Drawing)).Interface().(*DrawingElement)
 	}
-
-	// 复制域字符（如果有）
 	if source.FieldChar != nil {
-		newRun.FieldChar = source.FieldChar
+		newRun.FieldChar = deepCopyValue(reflect.ValueOf(source.FieldChar)).Interface().(*FieldChar)
 	}
-
-	// 复制指令文本（如果有）
 	if source.InstrText != nil {
-		newRun.InstrText = source.InstrText
+		newRun.InstrText = deepCopyValue(reflect.ValueOf(source.InstrText)).Interface().(*InstrText)
 	}
 
 	return newRun
